@@ -128,6 +128,20 @@ theorem noIntrospection_of_check (s : SchemaD) (d : Validate.Doc) (h : noIntrosp
   rw [e] at this
   simpa using this
 
+/-! NOTE ON THE PREMISE AND THE CONCLUSION (audit C05-F2 / C05-F4 / C06-F8). (i) `C06.SilentM` counts recorded errors of
+    each rule run ALONE and ignores the crash flag of that run. Here it is a PREMISE: a weaker premise makes the theorem
+    apply to MORE documents (also to documents on which a rule's run would have raised), it does not make it unsound.
+    What is NOT proved is the link "the chain `validate_ast` runs returned [] ⇒ every rule alone is silent" - that is the
+    chain-level gap of C06 (audit C06-F7); the correspondence compares the real chain's verdict with the model chain
+    (`runM`) and with every rule alone on every generated document. "Validation never raises" (first sentence of C05)
+    has NO theorem for the whole chain: the model has five crash sites (ValuesOfCorrectType `_check_scalar`,
+    KnownDirectives on empty ancestors, UniqueInputFieldNames on an empty stack, NoFragmentCycles, the overlap search);
+    only the memoised overlap search alone is proved crash-free (`C06.overlap_memo_run_never_crashes`). (ii) `Exec.argsEntry`
+    folds every failure of `coerce_argument_values` - also `Coerce.Err.internal` / `.fuel` - into `none`, a field error:
+    the conclusion does not speak about an internal exception INSIDE argument coercion (C07's `arguments_sound` is about
+    accepted values; C07 has a never-raises theorem for variables only); tied by the correspondence (real argument
+    coercion vs the model's tables, `argnodes`). -/
+
 /-- **accepted_cannot_go_wrong_computable** — the execution half of C05 with EVERY hypothesis except `WorldTyped` (which
     is part of the property statement) a computable check: `schemaChecksB` / `fieldOwnersB` on the schema (evaluated by the
     driver on every request), `docChecksB` on the document, the code variant (`fx.v7`, `fx.v11`: probed by the harness on
@@ -144,6 +158,44 @@ theorem accepted_cannot_go_wrong_computable (s : SchemaD) (hchk : schemaChecksB 
   obtain ⟨⟨⟨⟨hid, hmeta⟩, hal⟩, hnames⟩, hni⟩ := hd
   exact accepted_cannot_go_wrong_merged_executed s hchk hfo fx hv11 h7 env d vars hacc ⟨hid, hmeta⟩ hal hnames
     (noIntrospection_of_check _ d hni) w hw
+
+/-- `ValidDocR` of the executed document from the computable hypotheses (the six structural rules silent) -/
+theorem accepted_validDocR (s : SchemaD) (hchk : schemaChecksB (withBuiltins s) = true)
+    (fx : Validate.Fixes) (hv11 : fx.v11 = true) (env : Exec.ArgEnv) (d : Validate.Doc) (vars : Exec.Vars)
+    (hacc : ∀ r ∈ Validate.Rule.all, C06.SilentM (withBuiltins s) fx r d) (hd : docChecksB d = true) :
+    ValidDocR (withBuiltins s) (eDoc (withBuiltins s) env d) vars := by
+  unfold docChecksB at hd
+  simp only [Bool.and_eq_true, List.all_eq_true, bne_iff_ne, ne_eq] at hd
+  obtain ⟨⟨⟨⟨_, _⟩, _⟩, hnames⟩, hni⟩ := hd
+  unfold schemaChecksB at hchk
+  simp only [Bool.and_eq_true] at hchk
+  obtain ⟨⟨⟨⟨⟨_, _⟩, hr⟩, ho⟩, hs⟩, _⟩ := hchk
+  have sil : ∀ r, r ∈ Validate.Rule.all → r ≠ .overlappingFieldsCanBeMerged → C06.Silent (withBuiltins s) fx r d :=
+    fun r hr hn => (C06.silentM_of_ne hn).mp (hacc r hr)
+  exact rules_accept_validDocR (withBuiltins s) (schemaWf_of_checks _ ho hs) (rootsAreObjects_of_check _ hr) fx hv11 env d vars
+    (sil .fieldsOnCorrectType (by decide) (by decide)) (sil .scalarLeafs (by decide) (by decide))
+    (sil .knownFragmentNames (by decide) (by decide)) (sil .fragmentsOnCompositeTypes (by decide) (by decide))
+    (sil .uniqueFragmentNames (by decide) (by decide)) (sil .noFragmentCycles (by decide) (by decide))
+    hnames (noIntrospection_of_check _ d hni)
+
+/-- **accepted_responds_computable** — the POSITIVE half (audit C05-F5: `≠ .failed (.internal _)` alone is also satisfied
+    by the out-of-fuel artefact, e.g. at fuel 0): under the same computable hypotheses every request on an accepted document
+    HAS a response `r` (`C04.RespondsWith`: some amounts of fuel produce it and it is not the out-of-fuel artefact; it is
+    the same for every sufficient fuel, `C04.response_unique`), and that response is not an internal exception. -/
+theorem accepted_responds_computable (s : SchemaD) (hchk : schemaChecksB (withBuiltins s) = true)
+    (hfo : fieldOwnersB (withBuiltins s) = true)
+    (fx : Validate.Fixes) (hv11 : fx.v11 = true) (h7 : fx.v7 = true) (env : Exec.ArgEnv) (d : Validate.Doc) (vars : Exec.Vars)
+    (hacc : ∀ r ∈ Validate.Rule.all, C06.SilentM (withBuiltins s) fx r d) (hd : docChecksB d = true)
+    (w : Exec.World) (hw : WorldTyped s w) (op : Option String) :
+    ∃ r, C04.RespondsWith s (eDoc (withBuiltins s) env d) vars w op r ∧ ∀ cls, r ≠ .failed (.internal cls) := by
+  have hv := accepted_validDocR s hchk fx hv11 env d vars hacc hd
+  unfold ValidDocR validDocRB at hv
+  simp only [Bool.and_eq_true] at hv
+  obtain ⟨⟨_, ha⟩, hu⟩ := hv
+  obtain ⟨r, fuel, cf, he, hne⟩ := C04.responds_acyclic s (eDoc (withBuiltins s) env d) vars w
+    (by simpa [fragsUnique] using hu) ha op
+  refine ⟨r, ⟨fuel, cf, he, hne⟩, fun cls hr => ?_⟩
+  exact accepted_cannot_go_wrong_computable s hchk hfo fx hv11 h7 env d vars hacc hd w hw op fuel cf cls (he.trans hr)
 
 /-- **accepted_mergeSafe** — `MergeSafe` itself from the computable hypotheses: what "all 26 rule visitors silent" gives
     about same-key selections of the executed document -/
